@@ -4,7 +4,7 @@ C02, execution half — F2 with `break`/`continue`: generator-side facts.
 `compile_ls_Ff`: the loop ids in the code compiled from an F2 expression are the ones its compile
 allocated (what makes `BreakInstr`/`ContinueInstr` find the right `loopStart`).
 -/
-import ZygoVerif.Proofs.SimF2Ind
+import ZygoVerif.Proofs.SimF2Forms
 import ZygoVerif.Proofs.SimFb
 set_option linter.unusedSimpArgs false
 set_option linter.unusedVariables false
@@ -314,43 +314,6 @@ end
 
 /-! ## The fragment with `break` and `continue` (top-level code) -/
 
-mutual
-/-- Fx ls: top-level statements that may `break`/`continue` one of the enclosing loops (`ls`: their
-labels, innermost first): `begin`, `cond` (tests in Ff), `let`/`letseq` (initialisers in Ff), `newScope`,
-`for` (initialiser, test, increment in Ff; the body in Fx with the loop's label added) — and everything
-of Ff. -/
-def Fx (ls : List (Option String)) : Expr → Bool
-  | .break_ l => lblOk ls l
-  | .continue_ l => lblOk ls l
-  | .begin_ es => FxList ls es
-  | .cond arms d => FxArms ls arms && Fx ls d
-  | .let_ seq bs body =>
-    (seq || decide ((bs.map (·.1)).Nodup)) && !body.isEmpty && FfBinds true "" bs && FxList ls body
-  | .newScope es => !es.isEmpty && FxList ls es
-  | .for_ label init test incr body => Ff true "" init && Ff true "" test && Ff true "" incr && FxList (label :: ls) body
-  | .int v => Ff true "" (.int v)
-  | .bool v => Ff true "" (.bool v)
-  | .str v => Ff true "" (.str v)
-  | .nilLit => Ff true "" .nilLit
-  | .sym x => Ff true "" (.sym x)
-  | .arr es => Ff true "" (.arr es)
-  | .call f args => Ff true "" (.call f args)
-  | .def_ x e => Ff true "" (.def_ x e)
-  | .set_ x e => Ff true "" (.set_ x e)
-  | .and_ es => Ff true "" (.and_ es)
-  | .or_ es => Ff true "" (.or_ es)
-  | .fn ps rest body => Ff true "" (.fn ps rest body)
-  | .defn name ps rest body => Ff true "" (.defn name ps rest body)
-  | .assign _ _ => false
-  | .bad _ => false
-def FxList (ls : List (Option String)) : List Expr → Bool
-  | [] => true
-  | e :: es => Fx ls e && FxList ls es
-def FxArms (ls : List (Option String)) : List (Expr × Expr) → Bool
-  | [] => true
-  | (p, b) :: r => Ff true "" p && Fx ls b && FxArms ls r
-end
-
 /-- the compile-time loop facts survive a compile -/
 theorem GsOk.keep {Γ : List LCtx} {gs gs' : GS} (h : GsOk Γ gs) (hk : KeepFns gs gs') : GsOk Γ gs' :=
   ⟨hk.loopstack.trans h.stack, fun γ hγ => by
@@ -360,10 +323,10 @@ theorem GsOk.keep {Γ : List LCtx} {gs gs' : GS} (h : GsOk Γ gs) (hk : KeepFns 
 /-- what the totality statements on Fx give -/
 abbrev TotX (gs gs' : GS) (code : List Instr) : Prop := KeepFns gs gs' ∧ LsRes gs gs' code
 
-theorem total_of_Ff {e : Expr} (he : Ff true "" e = true) (isFn : Nat → Bool) (c : Ctx) (gs : GS) (hfn : c.funcname = "") :
+theorem total_of_Ff {e : Expr} (he : Ff true self e = true) (isFn : Nat → Bool) (c : Ctx) (gs : GS) (hfn : FnameOk self c) :
     ∃ code t gs', (compile isFn c e).run gs = .ok ((code, t), gs') ∧ code ≠ [] ∧ TotX gs gs' code := by
-  obtain ⟨code, t, g1, h1, hne, hk⟩ := compile_total_Ff true "" e he isFn c gs (Or.inr (Or.inl hfn))
-  exact ⟨code, t, g1, h1, hne, hk.1, compile_ls_Ff true "" e he isFn c gs _ h1 (Or.inr (Or.inl hfn))⟩
+  obtain ⟨code, t, g1, h1, hne, hk⟩ := compile_total_Ff true self e he isFn c gs hfn
+  exact ⟨code, t, g1, h1, hne, hk.1, compile_ls_Ff true self e he isFn c gs _ h1 hfn⟩
 
 theorem TotX.seq {gs g1 g2 : GS} {a b code : List Instr} (h₁ : TotX gs g1 a) (h₂ : TotX g1 g2 b)
     (h : ∀ x y, LsIn a x y → LsIn b x y → LsIn code x y) : TotX gs g2 code :=
@@ -371,10 +334,10 @@ theorem TotX.seq {gs g1 g2 : GS} {a b code : List Instr} (h₁ : TotX gs g1 a) (
     h _ _ (h₁.2.2.mono (Nat.le_refl _) h₂.2.1) (h₂.2.2.mono h₁.2.1 (Nat.le_refl _))⟩
 
 mutual
-theorem compile_total_Fx : ∀ (ls : List (Option String)) (e : Expr), Fx ls e = true → ∀ isFn c gs Γ, c.funcname = "" →
+theorem compile_total_Fx : ∀ (ls : List (Option String)) (self : String) (e : Expr), Fx ls self e = true → ∀ isFn c gs Γ, FnameOk self c →
     GsOk Γ gs → Γ.map (·.label) = ls →
     ∃ code t gs', (compile isFn c e).run gs = .ok ((code, t), gs') ∧ code ≠ [] ∧ TotX gs gs' code
-  | ls, .break_ l, he, isFn, c, gs, Γ, hfn, hg, hls => by
+  | ls, self, .break_ l, he, isFn, c, gs, Γ, hfn, hg, hls => by
     rw [Fx] at he
     obtain ⟨γ, hγ, _⟩ := findCtx_ok hls he
     refine ⟨[.brk γ.id (c.scopes - ((gs.loops.getD γ.id {}).scopeDepth + 1))], c.tail, gs, ?_, by simp, KeepFns.refl _,
@@ -382,7 +345,7 @@ theorem compile_total_Fx : ∀ (ls : List (Option String)) (e : Expr), Fx ls e =
     rw [compile]
     simp only [bind, StateT.bind, StateT.run, get, getThe, MonadStateOf.get, StateT.get, pure, Except.pure, Except.bind,
       StateT.pure, findLoop_ctx hg, hγ, Option.map_some]
-  | ls, .continue_ l, he, isFn, c, gs, Γ, hfn, hg, hls => by
+  | ls, self, .continue_ l, he, isFn, c, gs, Γ, hfn, hg, hls => by
     rw [Fx] at he
     obtain ⟨γ, hγ, _⟩ := findCtx_ok hls he
     refine ⟨[.cont γ.id (c.scopes - ((gs.loops.getD γ.id {}).scopeDepth + 1))], c.tail, gs, ?_, by simp, KeepFns.refl _,
@@ -390,33 +353,33 @@ theorem compile_total_Fx : ∀ (ls : List (Option String)) (e : Expr), Fx ls e =
     rw [compile]
     simp only [bind, StateT.bind, StateT.run, get, getThe, MonadStateOf.get, StateT.get, pure, Except.pure, Except.bind,
       StateT.pure, findLoop_ctx hg, hγ, Option.map_some]
-  | ls, .begin_ es, he, isFn, c, gs, Γ, hfn, hg, hls => by
+  | ls, self, .begin_ es, he, isFn, c, gs, Γ, hfn, hg, hls => by
     rw [Fx] at he
     cases es with
     | nil => exact ⟨[.push .nil], c.tail, gs, by rw [compile]; rfl, by simp, KeepFns.refl _, Nat.le_refl _, by lsin⟩
     | cons e0 es0 =>
       rw [compile]
-      · exact compileBegin_total_Fx ls (e0 :: es0) (by simp) he isFn c gs Γ hfn hg hls
+      · exact compileBegin_total_Fx ls self (e0 :: es0) (by simp) he isFn c gs Γ hfn hg hls
       · intro hh; cases hh
-  | ls, .cond arms d, he, isFn, c, gs, Γ, hfn, hg, hls => by
+  | ls, self, .cond arms d, he, isFn, c, gs, Γ, hfn, hg, hls => by
     rw [Fx] at he
     simp only [Bool.and_eq_true] at he
-    obtain ⟨dc, t, g1, hd, hdne, hf1⟩ := compile_total_Fx ls d he.2 isFn c gs Γ hfn hg hls
-    obtain ⟨as, g2, has, hf2, hl2, hin2⟩ := compileArms_total_Fx ls arms he.1 isFn c g1 Γ hfn (hg.keep hf1.1) hls
+    obtain ⟨dc, t, g1, hd, hdne, hf1⟩ := compile_total_Fx ls self d he.2 isFn c gs Γ hfn hg hls
+    obtain ⟨as, g2, has, hf2, hl2, hin2⟩ := compileArms_total_Fx ls self arms he.1 isFn c g1 Γ hfn (hg.keep hf1.1) hls
     refine ⟨asmCond as dc, c.tail, g2, ?_, asmCond_ne_nil as dc hdne, hf1.1.trans hf2, Nat.le_trans hf1.2.1 hl2, ?_⟩
     · rw [compile]
       simp only [g_bind_ok, g_pure_ok]
       exact ⟨_, _, hd, _, _, has, rfl⟩
     · exact lsIn_asmCond _ _ (fun p hp => ⟨(hin2 p hp).1.mono hf1.2.1 (Nat.le_refl _),
         (hin2 p hp).2.mono hf1.2.1 (Nat.le_refl _)⟩) (hf1.2.2.mono (Nat.le_refl _) hl2)
-  | ls, .let_ seq bs body, he, isFn, c, gs, Γ, hfn, hg, hls => by
+  | ls, self, .let_ seq bs body, he, isFn, c, gs, Γ, hfn, hg, hls => by
     rw [Fx] at he
     simp only [Bool.and_eq_true, Bool.not_eq_true', List.isEmpty_eq_false_iff] at he
     obtain ⟨⟨⟨_, hbody⟩, hbs⟩, hbl⟩ := he
-    have hfn' : FnameOk "" { c with scopes := c.scopes + 1, tail := false } := Or.inr (Or.inl hfn)
-    obtain ⟨rhs, t1, g1, h1, hf1⟩ := compileBinds_total_Ff true "" bs hbs isFn { c with scopes := c.scopes + 1, tail := false } seq gs hfn'
-    have hl1 := compileBinds_ls_Ff true "" bs hbs isFn _ seq gs _ h1 hfn'
-    obtain ⟨b, t2, g2, h2, _, hf2⟩ := compileBegin_total_Fx ls body hbody hbl isFn { c with scopes := c.scopes + 1 } g1 Γ hfn
+    have hfn' : FnameOk self { c with scopes := c.scopes + 1, tail := false } := hfn
+    obtain ⟨rhs, t1, g1, h1, hf1⟩ := compileBinds_total_Ff true self bs hbs isFn { c with scopes := c.scopes + 1, tail := false } seq gs hfn'
+    have hl1 := compileBinds_ls_Ff true self bs hbs isFn _ seq gs _ h1 hfn'
+    obtain ⟨b, t2, g2, h2, _, hf2⟩ := compileBegin_total_Fx ls self body hbody hbl isFn { c with scopes := c.scopes + 1 } g1 Γ hfn
       (hg.keep hf1.1) hls
     refine ⟨[.addScope] ++ rhs ++ (if seq then [] else (bs.map (fun p => Instr.popStackPutEnv p.1)).reverse)
       ++ b ++ [.removeScope], t2, g2, ?_, by simp, TotX.seq ⟨hf1.1, hl1⟩ hf2 (fun x y hx hy => ?_)⟩
@@ -428,10 +391,10 @@ theorem compile_total_Fx : ∀ (ls : List (Option String)) (e : Expr), Fx ls e =
         simp only [List.mem_reverse, List.mem_map] at hl
         obtain ⟨_, _, hh⟩ := hl; cases hh
       lsin
-  | ls, .newScope es, he, isFn, c, gs, Γ, hfn, hg, hls => by
+  | ls, self, .newScope es, he, isFn, c, gs, Γ, hfn, hg, hls => by
     rw [Fx] at he
     simp only [Bool.and_eq_true, Bool.not_eq_true', List.isEmpty_eq_false_iff] at he
-    obtain ⟨code, t, g1, h1, _, hf1⟩ := compileNewScope_total_Fx ls es he.1 he.2 isFn { c with scopes := c.scopes + 1 }
+    obtain ⟨code, t, g1, h1, _, hf1⟩ := compileNewScope_total_Fx ls self es he.1 he.2 isFn { c with scopes := c.scopes + 1 }
       c.tail gs Γ hfn hg hls
     refine ⟨[.addScope] ++ code ++ [.removeScope], t, g1, ?_, by simp, hf1.1, hf1.2.1, ?_⟩
     · cases es with
@@ -443,11 +406,11 @@ theorem compile_total_Fx : ∀ (ls : List (Option String)) (e : Expr), Fx ls e =
         · intro hh; cases hh
     · have := hf1.2.2
       lsin
-  | ls, .for_ label init test incr body, he, isFn, c, gs, Γ, hfn, hg, hls => by
+  | ls, self, .for_ label init test incr body, he, isFn, c, gs, Γ, hfn, hg, hls => by
     rw [Fx] at he
     simp only [Bool.and_eq_true] at he
     obtain ⟨⟨⟨hi, ht⟩, hs⟩, hb⟩ := he
-    obtain ⟨b, tb, g2, h2, hf2⟩ := compileBeginAny_total_Fx (label :: ls) body hb isFn { c with tail := false, scopes := c.scopes + 1 }
+    obtain ⟨b, tb, g2, h2, hf2⟩ := compileBeginAny_total_Fx (label :: ls) self body hb isFn { c with tail := false, scopes := c.scopes + 1 }
       (forGs gs c label) (ctx0 gs.loops.length label c.scopes :: Γ) hfn (hg.for_ c label _ rfl rfl rfl) (by simp [hls, ctx0])
     obtain ⟨i, ti, g3, h3, _, hf3⟩ := total_of_Ff hi isFn { c with tail := false, scopes := c.scopes + 1 } g2 hfn
     obtain ⟨t, tt, g4, h4, _, hf4⟩ := total_of_Ff ht isFn { c with tail := false, scopes := c.scopes + 1 } g3 hfn
@@ -476,75 +439,75 @@ theorem compile_total_Fx : ∀ (ls : List (Option String)) (e : Expr), Fx ls e =
       simp only [forDone_len]
       exact lsIn_forCode (hf3.2.2.mono (by omega) (by omega)) (hf4.2.2.mono (by omega) (by omega))
         (hf5.2.2.mono (by omega) (by omega)) (b2.mono (by omega) (by omega)) ⟨Nat.le_refl _, by omega⟩
-  | ls, .int v, he, isFn, c, gs, Γ, hfn, hg, hls | ls, .bool v, he, isFn, c, gs, Γ, hfn, hg, hls
-  | ls, .str v, he, isFn, c, gs, Γ, hfn, hg, hls | ls, .nilLit, he, isFn, c, gs, Γ, hfn, hg, hls
-  | ls, .sym x, he, isFn, c, gs, Γ, hfn, hg, hls | ls, .arr es, he, isFn, c, gs, Γ, hfn, hg, hls
-  | ls, .call f args, he, isFn, c, gs, Γ, hfn, hg, hls | ls, .def_ x e, he, isFn, c, gs, Γ, hfn, hg, hls
-  | ls, .set_ x e, he, isFn, c, gs, Γ, hfn, hg, hls | ls, .and_ es, he, isFn, c, gs, Γ, hfn, hg, hls
-  | ls, .or_ es, he, isFn, c, gs, Γ, hfn, hg, hls | ls, .fn _ _ _, he, isFn, c, gs, Γ, hfn, hg, hls
-  | ls, .defn _ _ _ _, he, isFn, c, gs, Γ, hfn, hg, hls => by
+  | ls, self, .int v, he, isFn, c, gs, Γ, hfn, hg, hls | ls, self, .bool v, he, isFn, c, gs, Γ, hfn, hg, hls
+  | ls, self, .str v, he, isFn, c, gs, Γ, hfn, hg, hls | ls, self, .nilLit, he, isFn, c, gs, Γ, hfn, hg, hls
+  | ls, self, .sym x, he, isFn, c, gs, Γ, hfn, hg, hls | ls, self, .arr es, he, isFn, c, gs, Γ, hfn, hg, hls
+  | ls, self, .call f args, he, isFn, c, gs, Γ, hfn, hg, hls | ls, self, .def_ x e, he, isFn, c, gs, Γ, hfn, hg, hls
+  | ls, self, .set_ x e, he, isFn, c, gs, Γ, hfn, hg, hls | ls, self, .and_ es, he, isFn, c, gs, Γ, hfn, hg, hls
+  | ls, self, .or_ es, he, isFn, c, gs, Γ, hfn, hg, hls | ls, self, .fn _ _ _, he, isFn, c, gs, Γ, hfn, hg, hls
+  | ls, self, .defn _ _ _ _, he, isFn, c, gs, Γ, hfn, hg, hls => by
     rw [Fx] at he; exact total_of_Ff he isFn c gs hfn
-  | ls, .assign _ _, he, _, _, _, _, _, _, _ | ls, .bad _, he, _, _, _, _, _, _, _ => by
+  | ls, self, .assign _ _, he, _, _, _, _, _, _, _ | ls, self, .bad _, he, _, _, _, _, _, _, _ => by
     simp [Fx] at he
-theorem compileBegin_total_Fx : ∀ (ls : List (Option String)) (es : List Expr), es ≠ [] → FxList ls es = true →
-    ∀ isFn c gs Γ, c.funcname = "" → GsOk Γ gs → Γ.map (·.label) = ls →
+theorem compileBegin_total_Fx : ∀ (ls : List (Option String)) (self : String) (es : List Expr), es ≠ [] → FxList ls self es = true →
+    ∀ isFn c gs Γ, FnameOk self c → GsOk Γ gs → Γ.map (·.label) = ls →
     ∃ code t gs', (compileBegin isFn c es).run gs = .ok ((code, t), gs') ∧ code ≠ [] ∧ TotX gs gs' code
-  | _, [], hne, _, _, _, _, _, _, _, _ => absurd rfl hne
-  | ls, [e], _, he, isFn, c, gs, Γ, hfn, hg, hls => by
+  | _, _, [], hne, _, _, _, _, _, _, _, _ => absurd rfl hne
+  | ls, self, [e], _, he, isFn, c, gs, Γ, hfn, hg, hls => by
     rw [FxList] at he
     simp only [Bool.and_eq_true] at he
     rw [compileBegin]
-    exact compile_total_Fx ls e he.1 isFn c gs Γ hfn hg hls
-  | ls, e :: e' :: es, _, he, isFn, c, gs, Γ, hfn, hg, hls => by
+    exact compile_total_Fx ls self e he.1 isFn c gs Γ hfn hg hls
+  | ls, self, e :: e' :: es, _, he, isFn, c, gs, Γ, hfn, hg, hls => by
     rw [FxList] at he
     simp only [Bool.and_eq_true] at he
-    obtain ⟨a, ta, g1, ha, hane, hf1⟩ := compile_total_Fx ls e he.1 isFn { c with tail := false } gs Γ hfn hg hls
-    obtain ⟨b, tb, g2, hb, _, hf2⟩ := compileBegin_total_Fx ls (e' :: es) (by simp) he.2 isFn c g1 Γ hfn (hg.keep hf1.1) hls
+    obtain ⟨a, ta, g1, ha, hane, hf1⟩ := compile_total_Fx ls self e he.1 isFn { c with tail := false } gs Γ hfn hg hls
+    obtain ⟨b, tb, g2, hb, _, hf2⟩ := compileBegin_total_Fx ls self (e' :: es) (by simp) he.2 isFn c g1 Γ hfn (hg.keep hf1.1) hls
     refine ⟨a ++ (if a.isEmpty then [] else [.pop]) ++ b, tb, g2, ?_, by simp [hane],
       TotX.seq hf1 hf2 (fun x y hx hy => by lsin)⟩
     rw [compileBegin]
     · simp only [g_bind_ok, g_pure_ok]
       exact ⟨_, _, ha, _, _, hb, rfl⟩
     · intro hh; cases hh
-theorem compileBeginAny_total_Fx : ∀ (ls : List (Option String)) (es : List Expr), FxList ls es = true →
-    ∀ isFn c gs Γ, c.funcname = "" → GsOk Γ gs → Γ.map (·.label) = ls →
+theorem compileBeginAny_total_Fx : ∀ (ls : List (Option String)) (self : String) (es : List Expr), FxList ls self es = true →
+    ∀ isFn c gs Γ, FnameOk self c → GsOk Γ gs → Γ.map (·.label) = ls →
     ∃ code t gs', (compileBegin isFn c es).run gs = .ok ((code, t), gs') ∧ TotX gs gs' code
-  | _, [], _, isFn, c, gs, _, _, _, _ => ⟨[], false, gs, by rw [compileBegin]; rfl, KeepFns.refl _, Nat.le_refl _, by lsin⟩
-  | ls, e :: es, he, isFn, c, gs, Γ, hfn, hg, hls => by
-    obtain ⟨code, t, g1, h1, _, hf1⟩ := compileBegin_total_Fx ls (e :: es) (by simp) he isFn c gs Γ hfn hg hls
+  | _, _, [], _, isFn, c, gs, _, _, _, _ => ⟨[], false, gs, by rw [compileBegin]; rfl, KeepFns.refl _, Nat.le_refl _, by lsin⟩
+  | ls, self, e :: es, he, isFn, c, gs, Γ, hfn, hg, hls => by
+    obtain ⟨code, t, g1, h1, _, hf1⟩ := compileBegin_total_Fx ls self (e :: es) (by simp) he isFn c gs Γ hfn hg hls
     exact ⟨code, t, g1, h1, hf1⟩
-theorem compileNewScope_total_Fx : ∀ (ls : List (Option String)) (es : List Expr), es ≠ [] → FxList ls es = true →
-    ∀ isFn c oldtail gs Γ, c.funcname = "" → GsOk Γ gs → Γ.map (·.label) = ls →
+theorem compileNewScope_total_Fx : ∀ (ls : List (Option String)) (self : String) (es : List Expr), es ≠ [] → FxList ls self es = true →
+    ∀ isFn c oldtail gs Γ, FnameOk self c → GsOk Γ gs → Γ.map (·.label) = ls →
     ∃ code t gs', (compileNewScope isFn c oldtail es).run gs = .ok ((code, t), gs') ∧ code ≠ [] ∧ TotX gs gs' code
-  | _, [], hne, _, _, _, _, _, _, _, _, _ => absurd rfl hne
-  | ls, [e], _, he, isFn, c, oldtail, gs, Γ, hfn, hg, hls => by
+  | _, _, [], hne, _, _, _, _, _, _, _, _, _ => absurd rfl hne
+  | ls, self, [e], _, he, isFn, c, oldtail, gs, Γ, hfn, hg, hls => by
     rw [FxList] at he
     simp only [Bool.and_eq_true] at he
     rw [compileNewScope]
-    exact compile_total_Fx ls e he.1 isFn _ gs Γ hfn hg hls
-  | ls, e :: e' :: es, _, he, isFn, c, oldtail, gs, Γ, hfn, hg, hls => by
+    exact compile_total_Fx ls self e he.1 isFn _ gs Γ hfn hg hls
+  | ls, self, e :: e' :: es, _, he, isFn, c, oldtail, gs, Γ, hfn, hg, hls => by
     rw [FxList] at he
     simp only [Bool.and_eq_true] at he
-    obtain ⟨a, ta, g1, ha, hane, hf1⟩ := compile_total_Fx ls e he.1 isFn { c with tail := false } gs Γ hfn hg hls
-    obtain ⟨b, tb, g2, hb, _, hf2⟩ := compileNewScope_total_Fx ls (e' :: es) (by simp) he.2 isFn c oldtail g1 Γ hfn
+    obtain ⟨a, ta, g1, ha, hane, hf1⟩ := compile_total_Fx ls self e he.1 isFn { c with tail := false } gs Γ hfn hg hls
+    obtain ⟨b, tb, g2, hb, _, hf2⟩ := compileNewScope_total_Fx ls self (e' :: es) (by simp) he.2 isFn c oldtail g1 Γ hfn
       (hg.keep hf1.1) hls
     refine ⟨a ++ [.pop] ++ b, tb, g2, ?_, by simp, TotX.seq hf1 hf2 (fun x y hx hy => by lsin)⟩
     rw [compileNewScope]
     · simp only [g_bind_ok, g_pure_ok]
       exact ⟨_, _, ha, _, _, hb, rfl⟩
     · intro hh; cases hh
-theorem compileArms_total_Fx : ∀ (ls : List (Option String)) (arms : List (Expr × Expr)), FxArms ls arms = true →
-    ∀ isFn c gs Γ, c.funcname = "" → GsOk Γ gs → Γ.map (·.label) = ls →
+theorem compileArms_total_Fx : ∀ (ls : List (Option String)) (self : String) (arms : List (Expr × Expr)), FxArms ls self arms = true →
+    ∀ isFn c gs Γ, FnameOk self c → GsOk Γ gs → Γ.map (·.label) = ls →
     ∃ as gs', (compileArms isFn c arms).run gs = .ok (as, gs') ∧ KeepFns gs gs' ∧ gs.loops.length ≤ gs'.loops.length
       ∧ ∀ p ∈ as, LsIn p.1 gs.loops.length gs'.loops.length ∧ LsIn p.2 gs.loops.length gs'.loops.length
-  | _, [], _, isFn, c, gs, _, _, _, _ =>
+  | _, _, [], _, isFn, c, gs, _, _, _, _ =>
     ⟨[], gs, by rw [compileArms]; rfl, KeepFns.refl _, Nat.le_refl _, fun _ h => by cases h⟩
-  | ls, (p, b) :: arms, he, isFn, c, gs, Γ, hfn, hg, hls => by
+  | ls, self, (p, b) :: arms, he, isFn, c, gs, Γ, hfn, hg, hls => by
     rw [FxArms] at he
     simp only [Bool.and_eq_true] at he
-    obtain ⟨r, g1, hr, hf1, hl1, hin1⟩ := compileArms_total_Fx ls arms he.2 isFn c gs Γ hfn hg hls
+    obtain ⟨r, g1, hr, hf1, hl1, hin1⟩ := compileArms_total_Fx ls self arms he.2 isFn c gs Γ hfn hg hls
     obtain ⟨pc, _, g2, hp, _, hf2⟩ := total_of_Ff he.1.1 isFn { c with tail := false } g1 hfn
-    obtain ⟨bc, _, g3, hb, _, hf3⟩ := compile_total_Fx ls b he.1.2 isFn c g2 Γ hfn (hg.keep (hf1.trans hf2.1)) hls
+    obtain ⟨bc, _, g3, hb, _, hf3⟩ := compile_total_Fx ls self b he.1.2 isFn c g2 Γ hfn (hg.keep (hf1.trans hf2.1)) hls
     refine ⟨(pc, bc) :: r, g3, ?_, (hf1.trans hf2.1).trans hf3.1, Nat.le_trans hl1 (Nat.le_trans hf2.2.1 hf3.2.1), fun x hx => ?_⟩
     · rw [compileArms]
       simp only [g_bind_ok, g_pure_ok]
@@ -618,11 +581,11 @@ theorem FrameNL.toF {s s' : St} (h : FrameNL s s') (hl : s'.linear = s.linear) :
 theorem RelF.relin {m : Nat → Nat} {s s' : St} {rs : Ref.St} {env env' : Nat} (h : RelF m s rs env)
     (hsc : s'.scopes = s.scopes) (hfns : s'.fns = s.fns) (hcur : s'.curfunc = s.curfunc) (hheap : s'.heap = s.heap)
     (htr : s'.trace = s.trace) (hb : s'.linear.getLast? = some (some 0))
-    (hch : ∃ k, ChainF (isFnScope s) rs.frames k env' s'.linear ∧ FnChainF s rs.frames s'.linear k s.curfunc) :
-    RelF m s' rs env' := by
+    (hch : ∃ k, ChainF (isFnScope s) rs.frames k env' s'.linear ∧ FnChainF s rs.frames s'.linear k s.curfunc)
+    (hloops : s'.loops = s.loops := by rfl) : RelF m s' rs env' := by
   have hso : ∀ i, scopeOf s' i = scopeOf s i := fun i => by unfold scopeOf; rw [hsc]
   have hfl : isFnScope s' = isFnScope s := by funext i; unfold isFnScope; rw [hso]
-  have hk : FnsKeep s s' := FnsKeep.of_fns_eq hfns
+  have hk : FnsKeep s s' := FnsKeep.of_fns_eq hfns (LoopsExt.of_eq hloops)
   have hgood : ∀ id, GoodFn m s rs id → GoodFn m s' rs id := fun id hg =>
     hg.mono hk (by rw [hsc]; exact Nat.le_refl _) (fun i _ => by rw [hfl]) (RExt.refl rs) rfl
   obtain ⟨k, hc, hfc⟩ := hch
@@ -731,15 +694,6 @@ theorem SimX.cond_exit {p b rest pre post : List Instr} {Γ : List LCtx} {m m₁
 
 /-! ## Bookkeeping: the final loop table, the loop ids before the code -/
 
-/-- the loop records the generator completed are in the running state's loop table -/
-def LoopsFinal (gs' : GS) (s : St) : Prop :=
-  gs'.loops.length ≤ s.loops.length ∧
-    ∀ id, id < gs'.loops.length → id ∉ gs'.loopstack → s.loops.getD id {} = gs'.loops.getD id {}
-
-theorem LoopsFinal.first {g₁ g₂ : GS} {s : St} (h : LoopsFinal g₂ s) (hk : KeepFns g₁ g₂) : LoopsFinal g₁ s :=
-  ⟨Nat.le_trans hk.loopsLen h.1, fun id h1 h2 => by
-    rw [h.2 id (Nat.lt_of_lt_of_le h1 hk.loopsLen) (by rw [hk.loopstack]; exact h2)]; exact hk.loopsGet id h1⟩
-
 theorem LoopsFinal.frame {gs' : GS} {s s' : St} (h : LoopsFinal gs' s) (hf : Frame s s') : LoopsFinal gs' s' :=
   ⟨Nat.le_trans h.1 hf.loopsLen, fun id h1 h2 => by
     rw [hf.loops id (Nat.lt_of_lt_of_le h1 h.1)]; exact h.2 id h1 h2⟩
@@ -783,39 +737,39 @@ theorem findLoopStart_at {pre rest : List Instr} {L a b : Nat} (h : LsOut pre a 
     exact hi
 
 /-- by determinism: what the compile of an Fx form leaves -/
-theorem compile_tot_Fx {ls : List (Option String)} {e : Expr} (he : Fx ls e = true) {isFn c gs Γ r} (hfn : c.funcname = "")
+theorem compile_tot_Fx {ls : List (Option String)} {e : Expr} (he : Fx ls self e = true) {isFn c gs Γ r} (hfn : FnameOk self c)
     (hg : GsOk Γ gs) (hls : Γ.map (·.label) = ls) (h : (compile isFn c e).run gs = .ok r) :
     r.1.1 ≠ [] ∧ TotX gs r.2 r.1.1 := by
-  obtain ⟨code, t, g1, h1, hne, hk⟩ := compile_total_Fx ls e he isFn c gs Γ hfn hg hls
+  obtain ⟨code, t, g1, h1, hne, hk⟩ := compile_total_Fx ls self e he isFn c gs Γ hfn hg hls
   rw [h1] at h; injection h with h; subst h; exact ⟨hne, hk⟩
 
-theorem compileBegin_tot_Fx {ls : List (Option String)} {es : List Expr} (hne : es ≠ []) (he : FxList ls es = true)
-    {isFn c gs Γ r} (hfn : c.funcname = "") (hg : GsOk Γ gs) (hls : Γ.map (·.label) = ls)
+theorem compileBegin_tot_Fx {ls : List (Option String)} {es : List Expr} (hne : es ≠ []) (he : FxList ls self es = true)
+    {isFn c gs Γ r} (hfn : FnameOk self c) (hg : GsOk Γ gs) (hls : Γ.map (·.label) = ls)
     (h : (compileBegin isFn c es).run gs = .ok r) : TotX gs r.2 r.1.1 := by
-  obtain ⟨code, t, g1, h1, _, hk⟩ := compileBegin_total_Fx ls es hne he isFn c gs Γ hfn hg hls
+  obtain ⟨code, t, g1, h1, _, hk⟩ := compileBegin_total_Fx ls self es hne he isFn c gs Γ hfn hg hls
   rw [h1] at h; injection h with h; subst h; exact hk
 
-theorem compileBeginAny_tot_Fx {ls : List (Option String)} {es : List Expr} (he : FxList ls es = true)
-    {isFn c gs Γ r} (hfn : c.funcname = "") (hg : GsOk Γ gs) (hls : Γ.map (·.label) = ls)
+theorem compileBeginAny_tot_Fx {ls : List (Option String)} {es : List Expr} (he : FxList ls self es = true)
+    {isFn c gs Γ r} (hfn : FnameOk self c) (hg : GsOk Γ gs) (hls : Γ.map (·.label) = ls)
     (h : (compileBegin isFn c es).run gs = .ok r) : TotX gs r.2 r.1.1 := by
-  obtain ⟨code, t, g1, h1, hk⟩ := compileBeginAny_total_Fx ls es he isFn c gs Γ hfn hg hls
+  obtain ⟨code, t, g1, h1, hk⟩ := compileBeginAny_total_Fx ls self es he isFn c gs Γ hfn hg hls
   rw [h1] at h; injection h with h; subst h; exact hk
 
-theorem compileNewScope_tot_Fx {ls : List (Option String)} {es : List Expr} (hne : es ≠ []) (he : FxList ls es = true)
-    {isFn c oldtail gs Γ r} (hfn : c.funcname = "") (hg : GsOk Γ gs) (hls : Γ.map (·.label) = ls)
+theorem compileNewScope_tot_Fx {ls : List (Option String)} {es : List Expr} (hne : es ≠ []) (he : FxList ls self es = true)
+    {isFn c oldtail gs Γ r} (hfn : FnameOk self c) (hg : GsOk Γ gs) (hls : Γ.map (·.label) = ls)
     (h : (compileNewScope isFn c oldtail es).run gs = .ok r) : TotX gs r.2 r.1.1 := by
-  obtain ⟨code, t, g1, h1, _, hk⟩ := compileNewScope_total_Fx ls es hne he isFn c oldtail gs Γ hfn hg hls
+  obtain ⟨code, t, g1, h1, _, hk⟩ := compileNewScope_total_Fx ls self es hne he isFn c oldtail gs Γ hfn hg hls
   rw [h1] at h; injection h with h; subst h; exact hk
 
-theorem compileArms_tot_Fx {ls : List (Option String)} {arms : List (Expr × Expr)} (he : FxArms ls arms = true)
-    {isFn c gs Γ r} (hfn : c.funcname = "") (hg : GsOk Γ gs) (hls : Γ.map (·.label) = ls)
+theorem compileArms_tot_Fx {ls : List (Option String)} {arms : List (Expr × Expr)} (he : FxArms ls self arms = true)
+    {isFn c gs Γ r} (hfn : FnameOk self c) (hg : GsOk Γ gs) (hls : Γ.map (·.label) = ls)
     (h : (compileArms isFn c arms).run gs = .ok r) :
     KeepFns gs r.2 ∧ gs.loops.length ≤ r.2.loops.length
       ∧ ∀ p ∈ r.1, LsIn p.1 gs.loops.length r.2.loops.length ∧ LsIn p.2 gs.loops.length r.2.loops.length := by
-  obtain ⟨as, g1, h1, hk⟩ := compileArms_total_Fx ls arms he isFn c gs Γ hfn hg hls
+  obtain ⟨as, g1, h1, hk⟩ := compileArms_total_Fx ls self arms he isFn c gs Γ hfn hg hls
   rw [h1] at h; injection h with h; subst h; exact hk
 
-theorem compile_tot_Ff {e : Expr} (he : Ff true "" e = true) {isFn c gs r} (hfn : c.funcname = "")
+theorem compile_tot_Ff {e : Expr} (he : Ff true self e = true) {isFn c gs r} (hfn : FnameOk self c)
     (h : (compile isFn c e).run gs = .ok r) : TotX gs r.2 r.1.1 := by
   obtain ⟨code, t, g1, h1, _, hk⟩ := total_of_Ff he isFn c gs hfn
   rw [h1] at h; injection h with h; subst h; exact hk
@@ -832,6 +786,7 @@ theorem FrameNL.pushScope (s : St) : FrameNL s s.pushScope :=
 
 theorem FnsKeep.of_nl {s s' : St} (hf : FrameNL s s') (hne : s.fns ≠ []) : FnsKeep s s' :=
   FnsKeep.of_eq hf.fnsLen hf.fns (by cases hs : s.fns with | nil => exact absurd hs hne | cons _ _ => simp [mainFn])
+    ⟨hf.loopsLen, hf.loops⟩
 
 /-- the loop facts after anything that keeps the scopes below and only pushes on the two stacks -/
 theorem CtxF.after_nl {Γ : List LCtx} {sc sc' : Nat} {s s' : St} {rs rs' : Ref.St} (h : CtxF Γ sc s rs)
@@ -925,30 +880,30 @@ theorem CtxF.moved {Γ : List LCtx} {sc k : Nat} {s s' : St} {rs rs' : Ref.St} (
   h.after mv.fn fr ext ⟨[], by rw [mv.data]; rfl, fun γ _ => GoodAbove.nil γ.id⟩
 
 def XClaimE (n : Nat) : Prop :=
-  ∀ ls e, Fx ls e = true → ∀ isFn c gs r, (compile isFn c e).run gs = .ok r → c.funcname = "" →
+  ∀ ls self e, Fx ls self e = true → ∀ isFn c gs r, (compile isFn c e).run gs = .ok r → FnameOk self c →
   ∀ Γ, Γ.map (·.label) = ls → GsOk Γ gs →
   ∀ m s rs env pre post, RelF m s rs env → GenOk gs r.2 s → CtxF Γ c.scopes s rs → LoopsFinal r.2 s →
     LsOut pre gs.loops.length r.2.loops.length → Seg s pre r.1.1 post →
     SimX r.1.1 Γ m s rs env (Ref.eval n e env rs)
 
 def XClaimB (n : Nat) : Prop :=
-  ∀ ls es, es ≠ [] → FxList ls es = true → ∀ isFn c gs r, (compileBegin isFn c es).run gs = .ok r → c.funcname = "" →
+  ∀ ls self es, es ≠ [] → FxList ls self es = true → ∀ isFn c gs r, (compileBegin isFn c es).run gs = .ok r → FnameOk self c →
   ∀ Γ, Γ.map (·.label) = ls → GsOk Γ gs →
   ∀ m s rs env pre post, RelF m s rs env → GenOk gs r.2 s → CtxF Γ c.scopes s rs → LoopsFinal r.2 s →
     LsOut pre gs.loops.length r.2.loops.length → Seg s pre r.1.1 post →
     SimX r.1.1 Γ m s rs env (Ref.evalBegin n es env rs)
 
 def XClaimN (n : Nat) : Prop :=
-  ∀ ls es, es ≠ [] → FxList ls es = true → ∀ isFn c oldtail gs r, (compileNewScope isFn c oldtail es).run gs = .ok r →
-  c.funcname = "" →
+  ∀ ls self es, es ≠ [] → FxList ls self es = true → ∀ isFn c oldtail gs r, (compileNewScope isFn c oldtail es).run gs = .ok r →
+  FnameOk self c →
   ∀ Γ, Γ.map (·.label) = ls → GsOk Γ gs →
   ∀ m s rs env pre post, RelF m s rs env → GenOk gs r.2 s → CtxF Γ c.scopes s rs → LoopsFinal r.2 s →
     LsOut pre gs.loops.length r.2.loops.length → Seg s pre r.1.1 post →
     SimX r.1.1 Γ m s rs env (Ref.evalBegin n es env rs)
 
 def XClaimC (n : Nat) : Prop :=
-  ∀ ls arms d, FxArms ls arms = true → Fx ls d = true → ∀ isFn c gs r gs0 rd,
-    (compileArms isFn c arms).run gs = .ok r → (compile isFn c d).run gs0 = .ok rd → c.funcname = "" →
+  ∀ ls self arms d, FxArms ls self arms = true → Fx ls self d = true → ∀ isFn c gs r gs0 rd,
+    (compileArms isFn c arms).run gs = .ok r → (compile isFn c d).run gs0 = .ok rd → FnameOk self c →
   ∀ Γ, Γ.map (·.label) = ls → GsOk Γ gs → GsOk Γ gs0 →
   ∀ m s rs env pre post, RelF m s rs env → GenOk gs r.2 s → GenOk gs0 rd.2 s → CtxF Γ c.scopes s rs →
     LoopsFinal r.2 s → LoopsFinal rd.2 s →
@@ -960,27 +915,27 @@ def XClaimC (n : Nat) : Prop :=
 theorem lsOut_pop (a b : Nat) : LsOut [Instr.pop] a b := lsOut_single (fun _ h => by cases h) a b
 
 theorem xclaimB_succ {n : Nat} (hE : XClaimE n) (hB : XClaimB n) : XClaimB (n + 1) := by
-  intro ls es hne hes isFn c gs r hc hfn Γ hls hg m s rs env pre post hrel hgen hctx hlf hlo hseg
+  intro ls self es hne hes isFn c gs r hc hfn Γ hls hg m s rs env pre post hrel hgen hctx hlf hlo hseg
   match es, hne with
   | [e], _ =>
     rw [FxList] at hes
     simp only [Bool.and_eq_true] at hes
     rw [compileBegin] at hc
     rw [Ref.evalBegin]
-    exact hE ls e hes.1 isFn c gs r hc hfn Γ hls hg m s rs env pre post hrel hgen hctx hlf hlo hseg
+    exact hE ls self e hes.1 isFn c gs r hc hfn Γ hls hg m s rs env pre post hrel hgen hctx hlf hlo hseg
   | e :: e' :: es', _ =>
     rw [FxList] at hes
     simp only [Bool.and_eq_true] at hes
     rw [compileBegin] at hc
     · simp only [g_bind_ok, g_pure_ok] at hc
       obtain ⟨ra, gs1, ha, rb, gs2, hb, rfl⟩ := hc
-      have hfn' : ({ c with tail := false } : Ctx).funcname = "" := hfn
+      have hfn' : FnameOk self { c with tail := false } := hfn
       obtain ⟨hane', tot1⟩ := compile_tot_Fx hes.1 hfn' hg hls ha
       have tot2 := compileBegin_tot_Fx (by simp) hes.2 hfn (hg.keep tot1.1) hls hb
       have hane : ra.1.isEmpty = false := by simpa [List.isEmpty_eq_false_iff] using hane'
       simp only [hane, Bool.false_eq_true, if_false] at hseg hgen hlf hlo ⊢
       rw [Ref.evalBegin]
-      · have ih := hE ls e hes.1 isFn _ gs (ra, gs1) ha hfn' Γ hls hg m s rs env pre ([.pop] ++ rb.1 ++ post) hrel
+      · have ih := hE ls self e hes.1 isFn _ gs (ra, gs1) ha hfn' Γ hls hg m s rs env pre ([.pop] ++ rb.1 ++ post) hrel
           (hgen.first tot2.1) hctx (hlf.first tot2.1) (hlo.mono (Nat.le_refl _) tot2.2.1) (hseg.refocus (by simp))
         cases h1 : Ref.eval n e env rs with
         | ok v1 rs1 =>
@@ -988,7 +943,7 @@ theorem xclaimB_succ {n : Nat} (hE : XClaimE n) (hB : XClaimB n) : XClaimB (n + 
           obtain ⟨s1, m1, w1, r1, l1, hv1, rel1, hm1, ext1, fr1, hcl1⟩ := ih
           obtain ⟨r2, m2⟩ := glue_pop hseg l1
           have hfr := fr1.trans (FrameF.jmp s1 (s1.pc + 1) s.data)
-          have ih2 := hB ls (e' :: es') (by simp) hes.2 isFn c gs1 (rb, gs2) hb hfn Γ hls (hg.keep tot1.1) m1
+          have ih2 := hB ls self (e' :: es') (by simp) hes.2 isFn c gs1 (rb, gs2) hb hfn Γ hls (hg.keep tot1.1) m1
             (s1.jmp (s1.pc + 1) s.data) rs1 env _ post (rel1.jmp _ _)
             ((hgen.rest tot1.1).frame hfr.toFrame) (hctx.moved m2 hfr ext1) (hlf.frame hfr.toFrame)
             ((hlo.mono tot1.2.1 (Nat.le_refl _)).app ((tot1.2.2.below (Nat.le_refl _)).app (lsOut_pop _ _)))
@@ -1002,26 +957,26 @@ theorem xclaimB_succ {n : Nat} (hE : XClaimE n) (hB : XClaimB n) : XClaimB (n + 
     · intro hh; cases hh
 
 theorem xclaimN_succ {n : Nat} (hE : XClaimE n) (hN : XClaimN n) : XClaimN (n + 1) := by
-  intro ls es hne hes isFn c oldtail gs r hc hfn Γ hls hg m s rs env pre post hrel hgen hctx hlf hlo hseg
+  intro ls self es hne hes isFn c oldtail gs r hc hfn Γ hls hg m s rs env pre post hrel hgen hctx hlf hlo hseg
   match es, hne with
   | [e], _ =>
     rw [FxList] at hes
     simp only [Bool.and_eq_true] at hes
     rw [compileNewScope] at hc
     rw [Ref.evalBegin]
-    exact hE ls e hes.1 isFn _ gs r hc hfn Γ hls hg m s rs env pre post hrel hgen hctx hlf hlo hseg
+    exact hE ls self e hes.1 isFn _ gs r hc hfn Γ hls hg m s rs env pre post hrel hgen hctx hlf hlo hseg
   | e :: e' :: es', _ =>
     rw [FxList] at hes
     simp only [Bool.and_eq_true] at hes
     rw [compileNewScope] at hc
     · simp only [g_bind_ok, g_pure_ok] at hc
       obtain ⟨ra, gs1, ha, rb, gs2, hb, rfl⟩ := hc
-      have hfn' : ({ c with tail := false } : Ctx).funcname = "" := hfn
+      have hfn' : FnameOk self { c with tail := false } := hfn
       obtain ⟨hane', tot1⟩ := compile_tot_Fx hes.1 hfn' hg hls ha
       have tot2 := compileNewScope_tot_Fx (by simp) hes.2 hfn (hg.keep tot1.1) hls hb
       simp only at hgen hlf hlo
       rw [Ref.evalBegin]
-      · have ih := hE ls e hes.1 isFn _ gs (ra, gs1) ha hfn' Γ hls hg m s rs env pre ([.pop] ++ rb.1 ++ post) hrel
+      · have ih := hE ls self e hes.1 isFn _ gs (ra, gs1) ha hfn' Γ hls hg m s rs env pre ([.pop] ++ rb.1 ++ post) hrel
           (hgen.first tot2.1) hctx (hlf.first tot2.1) (hlo.mono (Nat.le_refl _) tot2.2.1) (hseg.refocus (by simp))
         cases h1 : Ref.eval n e env rs with
         | ok v1 rs1 =>
@@ -1029,7 +984,7 @@ theorem xclaimN_succ {n : Nat} (hE : XClaimE n) (hN : XClaimN n) : XClaimN (n + 
           obtain ⟨s1, m1, w1, r1, l1, hv1, rel1, hm1, ext1, fr1, hcl1⟩ := ih
           obtain ⟨r2, m2⟩ := glue_pop hseg l1
           have hfr := fr1.trans (FrameF.jmp s1 (s1.pc + 1) s.data)
-          have ih2 := hN ls (e' :: es') (by simp) hes.2 isFn c oldtail gs1 (rb, gs2) hb hfn Γ hls (hg.keep tot1.1) m1
+          have ih2 := hN ls self (e' :: es') (by simp) hes.2 isFn c oldtail gs1 (rb, gs2) hb hfn Γ hls (hg.keep tot1.1) m1
             (s1.jmp (s1.pc + 1) s.data) rs1 env _ post (rel1.jmp _ _)
             ((hgen.rest tot1.1).frame hfr.toFrame) (hctx.moved m2 hfr ext1) (hlf.frame hfr.toFrame)
             ((hlo.mono tot1.2.1 (Nat.le_refl _)).app ((tot1.2.2.below (Nat.le_refl _)).app (lsOut_pop _ _)))
@@ -1046,21 +1001,21 @@ theorem lsOut_one (i : Instr) (a b : Nat) (hi : ∀ l, Instr.loopStart l ≠ i :
   lsOut_single hi a b
 
 theorem xclaimC_succ {n : Nat} (hFE : FClaimE n) (hE : XClaimE n) (hC : XClaimC n) : XClaimC (n + 1) := by
-  intro ls arms d harms hd isFn c gs r gs0 rd hc hcd hfn Γ hls hg hg0 m s rs env pre post hrel hgen hgend hctx hlf hlfd
+  intro ls self arms d harms hd isFn c gs r gs0 rd hc hcd hfn Γ hls hg hg0 m s rs env pre post hrel hgen hgend hctx hlf hlfd
     hlo hlod hdl hseg
   match arms with
   | [] =>
     rw [compileArms] at hc; simp only [g_pure_ok] at hc; subst hc
     rw [Ref.evalCond]
     simp only [asmCond] at hseg ⊢
-    exact hE ls d hd isFn c gs0 rd hcd hfn Γ hls hg0 m s rs env pre post hrel hgend hctx hlfd hlod hseg
+    exact hE ls self d hd isFn c gs0 rd hcd hfn Γ hls hg0 m s rs env pre post hrel hgend hctx hlfd hlod hseg
   | (p, b) :: arms' =>
     rw [FxArms] at harms
     simp only [Bool.and_eq_true] at harms
     rw [compileArms] at hc
     simp only [g_bind_ok, g_pure_ok] at hc
     obtain ⟨rest, gs1, hrest, rp, gs2, hp, rb, gs3, hb, rfl⟩ := hc
-    have hfn' : ({ c with tail := false } : Ctx).funcname = "" := hfn
+    have hfn' : FnameOk self { c with tail := false } := hfn
     have totr := compileArms_tot_Fx harms.2 hfn hg hls hrest
     have totp := compile_tot_Ff harms.1.1 hfn' hp
     obtain ⟨_, totb⟩ := compile_tot_Fx harms.1.2 hfn (hg.keep (totr.1.trans totp.1)) hls hb
@@ -1069,7 +1024,7 @@ theorem xclaimC_succ {n : Nat} (hFE : FClaimE n) (hE : XClaimE n) (hC : XClaimC 
     have l23 : gs2.loops.length ≤ gs3.loops.length := totb.2.1
     rw [Ref.evalCond]
     simp only [asmCond] at hseg hgen hlf hlo ⊢
-    have ih := hFE true "" p harms.1.1 isFn _ gs1 (rp, gs2) hp (Or.inr (Or.inl hfn)) m s rs env pre _ hrel
+    have ih := hFE true self p harms.1.1 isFn _ gs1 (rp, gs2) hp hfn m s rs env pre _ hrel
       (fun _ => (hgen.rest totr.1).first totb.1) (hseg.refocus (c' := rp.1)
       (post' := [.branch false (rb.1.length + 2)] ++ rb.1 ++ [.jump ((asmCond rest rd.1.1).length + 1)]
         ++ asmCond rest rd.1.1 ++ post) (by simp))
@@ -1083,7 +1038,7 @@ theorem xclaimC_succ {n : Nat} (hFE : FClaimE n) (hE : XClaimE n) (hC : XClaimC 
       · rw [htr, if_pos ht]
         obtain ⟨r2, m2⟩ := glue_brn_fall hseg l1 ht
         have hfr := fr1.trans (FrameF.jmp s1 (s1.pc + 1) s.data)
-        have ih2 := hE ls b harms.1.2 isFn c gs2 (rb, gs3) hb hfn Γ hls (hg.keep (totr.1.trans totp.1)) m1
+        have ih2 := hE ls self b harms.1.2 isFn c gs2 (rb, gs3) hb hfn Γ hls (hg.keep (totr.1.trans totp.1)) m1
           (s1.jmp (s1.pc + 1) s.data) rs1 env _ _ (rel1.jmp _ _)
           ((hgen.rest (totr.1.trans totp.1)).frame hfr.toFrame) (hctx.moved m2 hfr ext1) (hlf.frame hfr.toFrame)
           ((hlo.mono (Nat.le_trans l01 l12) (Nat.le_refl _)).app
@@ -1096,7 +1051,7 @@ theorem xclaimC_succ {n : Nat} (hFE : FClaimE n) (hE : XClaimE n) (hC : XClaimC 
         obtain ⟨r2, m2⟩ := glue_brn_taken hseg l1 (by simpa using ht)
         have hfr := fr1.trans (FrameF.jmp s1 (s1.pc + ((rb.1.length : Int) + 2)) s.data)
         have hk13 := totp.1.trans totb.1
-        have ih2 := hC ls arms' d harms.2 hd isFn c gs (rest, gs1) gs0 rd hrest hcd hfn Γ hls hg hg0 m1
+        have ih2 := hC ls self arms' d harms.2 hd isFn c gs (rest, gs1) gs0 rd hrest hcd hfn Γ hls hg hg0 m1
           (s1.jmp (s1.pc + ((rb.1.length : Int) + 2)) s.data) rs1 env _ post (rel1.jmp _ _)
           ((hgen.first hk13).frame hfr.toFrame) (hgend.frame hfr.toFrame) (hctx.moved m2 hfr ext1)
           ((hlf.first hk13).frame hfr.toFrame) (hlfd.frame hfr.toFrame)
@@ -1171,7 +1126,7 @@ theorem seg_pumX {Γ : List LCtx} {m : Nat → Nat} {σ : St} {rs : Ref.St} {fr 
   | cont l rs' => exact hsim
 
 theorem body_pumX {n : Nat} (hB : XClaimB n) {ls : List (Option String)} {body : List Expr}
-    (hbody : FxList ls body = true) {isFn : Nat → Bool} {c : Ctx} (hfn : c.funcname = "") {gb rb g2}
+    (hbody : FxList ls self body = true) {isFn : Nat → Bool} {c : Ctx} (hfn : FnameOk self c) {gb rb g2}
     (hcb : (compileBegin isFn c body).run gb = .ok (rb, g2)) {Γ : List LCtx} (hls : Γ.map (·.label) = ls) (hg : GsOk Γ gb)
     {m : Nat → Nat} {σ : St} {rs : Ref.St} {fr L : Nat} {D : List (Option Val)} {full P Q : List Instr}
     (hin : InFn σ full) (hc : full = P ++ rb.1 ++ (.popUntilMark L :: Q)) (hp : σ.pc = (P.length : Int))
@@ -1194,7 +1149,7 @@ theorem body_pumX {n : Nat} (hB : XClaimB n) {ls : List (Option String)} {body :
       · omega
   | cons e0 es0 =>
     exact seg_pumX hin hc hp hd
-      (hB ls (e0 :: es0) (by simp) hbody isFn c gb (rb, g2) hcb hfn Γ hls hg m σ rs fr P _ hrel hgen hctx hlf hlo
+      (hB ls self (e0 :: es0) (by simp) hbody isFn c gb (rb, g2) hcb hfn Γ hls hg m σ rs fr P _ hrel hgen hctx hlf hlo
         (hin.seg (by rw [hc]) hp))
 
 /-- whose loop a `break`/`continue` inside the innermost loop means -/
@@ -1217,9 +1172,9 @@ theorem findCtx_cons {γ₀ : LCtx} {Γ : List LCtx} {l : Option String} {γ : L
 
 /-- **One `for` loop from its test label on**, `break`/`continue` allowed in the body. -/
 def XClaimF (n : Nat) : Prop :=
-  ∀ (ls : List (Option String)) (label : Option String) (test incr : Expr) (body : List Expr),
-  Ff true "" test = true → Ff true "" incr = true → FxList (label :: ls) body = true →
-  ∀ (isFn : Nat → Bool) (c : Ctx), c.funcname = "" →
+  ∀ (ls : List (Option String)) (self : String) (label : Option String) (test incr : Expr) (body : List Expr),
+  Ff true self test = true → Ff true self incr = true → FxList (label :: ls) self body = true →
+  ∀ (isFn : Nat → Bool) (c : Ctx), FnameOk self c →
   ∀ gb rb g2 gt rt g4 gi ri g5, (compileBegin isFn c body).run gb = .ok (rb, g2) →
     (compile isFn c test).run gt = .ok (rt, g4) → (compile isFn c incr).run gi = .ok (ri, g5) →
   ∀ (Γ : List LCtx) (γ₀ : LCtx), Γ.map (·.label) = ls → γ₀.label = label → GsOk (γ₀ :: Γ) gb →
@@ -1240,9 +1195,9 @@ theorem GoodAbove.cons_vok {L : Nat} {w : Val} {G : List (Option Val)} {m s rs} 
   fun x hx => (List.mem_cons.mp hx).elim (fun e => ⟨w, e, vOk_not_mark hw L⟩) (hG x)
 
 theorem xclaimF_succ {n : Nat} (hFE : FClaimE n) (hB : XClaimB n) (hF : XClaimF n) : XClaimF (n + 1) := by
-  intro ls label test incr body htest hincr hbody isFn c hfn gb rb g2 gt rt g4 gi ri g5 hcb hct hci Γ γ₀ hls hlab hg
+  intro ls self label test incr body htest hincr hbody isFn c hfn gb rb g2 gt rt g4 gi ri g5 hcb hct hci Γ γ₀ hls hlab hg
     ci pre post m σ rs hin hpc hd hlin hrel hgen hctx hlf hlo hbrk hcont
-  have hfnok : FnameOk "" c := Or.inr (Or.inl hfn)
+  have hfnok : FnameOk self c := hfn
   have hls' : (γ₀ :: Γ).map (·.label) = label :: ls := by simp [hls, hlab]
   -- from the `continue` label on: the increment, back on the mark, the next iteration
   have hafter : ∀ (m6 : Nat → Nat) (σ6 : St) (rs2 : Ref.St) (G : List (Option Val)),
@@ -1273,7 +1228,7 @@ theorem xclaimF_succ {n : Nat} (hFE : FClaimE n) (hB : XClaimB n) (hF : XClaimF 
     have hseg8 : Seg σ8 (pre ++ fHd γ₀.id ++ ci ++ fMid γ₀.id ri.1) ri.1
         ([.popUntilMark γ₀.id, .label] ++ rt.1 ++ fBr rb.1 ++ rb.1 ++ fTl γ₀.id ri.1 rt.1 rb.1 ++ post) :=
       hin8.seg (by simp [forFull]) (by rw [hpc8]; simp; omega)
-    have ih8 := hFE true "" incr hincr isFn c gi (ri, g5) hci hfnok m6 σ8 rs2 γ₀.fr _ _ rel8
+    have ih8 := hFE true self incr hincr isFn c gi (ri, g5) hci hfnok m6 σ8 rs2 γ₀.fr _ _ rel8
       (fun _ => hgen.2.2.frame (hfr6.trans hfr68).toFrame) hseg8
     cases h3 : Ref.eval n incr γ₀.fr rs2 with
     | ok vs rs3 =>
@@ -1294,7 +1249,7 @@ theorem xclaimF_succ {n : Nat} (hFE : FClaimE n) (hB : XClaimB n) (hF : XClaimF 
       have hfr010 := hfr6.trans hfr10
       have hfn10 : fnOf (σ9.jmp (σ9.pc + 1) (some (.mark γ₀.id) :: γ₀.D))
           (σ9.jmp (σ9.pc + 1) (some (.mark γ₀.id) :: γ₀.D)).curfunc = fnOf σ6 σ6.curfunc := l9.fn.trans hfn68
-      have hnext := hF ls label test incr body htest hincr hbody isFn c hfn gb rb g2 gt rt g4 gi ri g5 hcb hct hci Γ γ₀
+      have hnext := hF ls self label test incr body htest hincr hbody isFn c hfn gb rb g2 gt rt g4 gi ri g5 hcb hct hci Γ γ₀
         hls hlab hg ci pre post m9 (σ9.jmp (σ9.pc + 1) (some (.mark γ₀.id) :: γ₀.D)) rs3 (hin9.of_fn rfl)
         (by rw [St.jmp_pc, l9.pc, hpc8]; push_cast; omega) rfl (by rw [hfr010.linear]; exact hlin) (rel9.jmp _ _)
         ⟨hgen.1.frame hfr010.toFrame, hgen.2.1.frame hfr010.toFrame, hgen.2.2.frame hfr010.toFrame⟩
@@ -1314,7 +1269,7 @@ theorem xclaimF_succ {n : Nat} (hFE : FClaimE n) (hB : XClaimB n) (hF : XClaimF 
   have hseg1 : Seg (σ.jmp (σ.pc + 1) σ.data) (pre ++ fHd γ₀.id ++ ci ++ fMid γ₀.id ri.1 ++ ri.1 ++ [.popUntilMark γ₀.id, .label])
       rt.1 (fBr rb.1 ++ rb.1 ++ fTl γ₀.id ri.1 rt.1 rb.1 ++ post) :=
     (hin.of_fn (σ' := σ.jmp (σ.pc + 1) σ.data) rfl).seg (by simp [forFull]) (by rw [St.jmp_pc, hpc]; simp; omega)
-  have ih1 := hFE true "" test htest isFn c gt (rt, g4) hct hfnok m _ rs γ₀.fr _ _ (hrel.jmp _ _)
+  have ih1 := hFE true self test htest isFn c gt (rt, g4) hct hfnok m _ rs γ₀.fr _ _ (hrel.jmp _ _)
     (fun _ => hgen.2.1.frame (Frame.jmp σ (σ.pc + 1) σ.data)) hseg1
   cases h1 : Ref.eval n test γ₀.fr rs with
   | ok tv rs1 =>
@@ -1468,23 +1423,6 @@ theorem asmFor_offs (L : Nat) (i t s b : List Instr) :
     ∧ (asmFor L (i ++ [.popUntilMark L]) t (s ++ [.popUntilMark L]) (b ++ [.popUntilMark L])).2.2
         = ((i.length + 6 : Nat) : Int) := by
   constructor <;> simp [asmFor] <;> omega
-
-theorem LoopsFinal.for_body {gs g2 g5 : GS} {c : Ctx} {label : Option String} {b k : Int} {s : St}
-    (h : LoopsFinal (forDone g5 gs.loops.length b k) s) (h1 : KeepFns (forGs gs c label) g2) (h2 : KeepFns g2 g5) :
-    LoopsFinal g2 s := by
-  have hl5 : (forDone g5 gs.loops.length b k).loops.length = g5.loops.length := forDone_len _ _ _ _
-  have hst2 : g2.loopstack = gs.loops.length :: gs.loopstack := h1.loopstack
-  have hst5 : (forDone g5 gs.loops.length b k).loopstack = gs.loopstack := by
-    show g5.loopstack.drop 1 = _
-    rw [h2.loopstack, hst2]; rfl
-  refine ⟨Nat.le_trans h2.loopsLen (hl5 ▸ h.1), fun id hid hns => ?_⟩
-  rw [hst2] at hns
-  have hne : gs.loops.length ≠ id := fun e => hns (e ▸ List.mem_cons_self ..)
-  rw [h.2 id (by rw [hl5]; exact Nat.lt_of_lt_of_le hid h2.loopsLen)
-    (by rw [hst5]; exact fun hm => hns (List.mem_cons_of_mem _ hm))]
-  show (g5.loops.set gs.loops.length _).getD id {} = _
-  rw [List.getD_eq_getElem?_getD, List.getElem?_set_ne hne, ← List.getD_eq_getElem?_getD]
-  exact h2.loopsGet id hid
 
 theorem goodAbove_mark {L id : Nat} (h : L ≠ id) : GoodAbove id [some (.mark L)] := fun x hx => by
   simp only [List.mem_singleton] at hx
